@@ -231,6 +231,7 @@ class Translator:
         self.receiver_discipline()
         self.compute_deps()
         self.cache_mutations()
+        self.detach_sites()
         self.env_switches()
         self.transformer_keys()
 
@@ -1038,6 +1039,40 @@ class Translator:
         ks, d = self.reach(q)
         return ks, d
 
+    # -- node bookkeeping: a component is attached to a node once per terminal and must be detached as often --
+    def detach_sites(self):
+        """Cpt.__init__ attaches the component to cct.nodes once per ENTRY of node_names (a node that
+        occurs twice gets two attachments).  Every loop of the netlist classes that detaches a component
+        from its nodes must therefore run over the very list `<cpt>.nodes` (with its repetitions): any other
+        iterable (set(..), sorted(..), dict.fromkeys(..), a slice, a filtered comprehension) or a guarded
+        node.remove() is reported.  Recognised shapes only; everything else is `bad`."""
+        sites = []
+        for q in self.order:
+            fi = self.funcs[q]
+            for loop in ast.walk(fi.node):
+                if not isinstance(loop, ast.For) or not isinstance(loop.target, ast.Name):
+                    continue
+                if not any(isinstance(x, ast.Attribute) and x.attr == 'nodes' and not is_self(x.value) for x in ast.walk(loop.iter)):
+                    continue
+                for n in ast.walk(loop):
+                    if isinstance(n, ast.Call) and isinstance(n.func, ast.Attribute) and n.func.attr == 'remove' \
+                            and isinstance(n.func.value, ast.Name) and n.func.value.id == loop.target.id and len(n.args) == 1 and isinstance(n.args[0], ast.Name):
+                        c = n.args[0].id
+                        exact = isinstance(loop.iter, ast.Attribute) and loop.iter.attr == 'nodes' and isinstance(loop.iter.value, ast.Name) and loop.iter.value.id == c
+                        direct = any(isinstance(st, ast.Expr) and st.value is n for st in loop.body) and not loop.orelse
+                        sites.append(dict(func=q, line=n.lineno, iter=ast.unparse(loop.iter), ok=bool(exact and direct)))
+        # the attaching side
+        attach_ok = False
+        r = self.foreign_method('Cpt', '__init__', os.path.join(self.repo, 'lcapy', 'mnacpts.py'))
+        if r is not None:
+            for loop in ast.walk(r[1]):
+                if isinstance(loop, ast.For) and isinstance(loop.iter, ast.Name) and loop.iter.id == 'node_names' and len(loop.body) == 1 \
+                        and ast.unparse(loop.body[0]).replace(' ', '') == 'self.nodes.append(cct.nodes.add(%s,self,cct))' % loop.target.id:
+                    attach_ok = True
+        self.detach = sites
+        self.attach_ok = attach_ok
+        self.detach_bad = [x for x in sites if not x['ok']]
+
     # -- process-wide switches (lcapy.state.state.<x>) read by the code that fills the caches ----
     ANALYSIS_MODULES = ['netlist.py', 'netlistmixin.py', 'netlistopsmixin.py', 'netlistsimplifymixin.py', 'netfile.py', 'subnetlist.py',
                         'mna.py', 'mnacpts.py', 'current.py', 'voltage.py', 'statespacemaker.py', 'nodalanalysis.py', 'loopanalysis.py',
@@ -1666,6 +1701,7 @@ if __name__ == '__main__':
     print('raw sites', T.raw_sites)
     print('raw sites bad', T.raw_sites_bad)
     print('cache mutation sites', T.cache_mutation_sites)
+    print('detach', T.detach, T.attach_ok)
     print('cb public', {n: T.cb_ok[n] for n in T.cb_public})
     print('env reads', T.env_reads, T.env_invalidating)
     print('cached sources', T.cached_sources)
